@@ -2,7 +2,7 @@
    theorem that checkCapability computes it (default flags). *)
 From Coq Require Import List NArith ZArith Bool Arith Lia.
 Import ListNotations.
-Require Import Base.Wire Base.PyStr C03.Model C03.Fold C03.CaseInsens C03.Anti C03.Total.
+Require Import Base.Wire Base.PyStr C03.Model C03.Fold C03.CaseInsens C03.Anti C03.Total C03.Chan.
 Open Scope N_scope.
 
 (* explicit setting of a (capability p, anti-capability a) pair in a set *)
@@ -507,3 +507,26 @@ Example automode_stranger :
   spec_flags d p a (chan_triple p) f false = false /\ spec_flags d p a (chan_triple p) f true = true /\
   checkCapability d p f = Ok false /\ checkCapability d a f = Ok true.
 Proof. vm_compute. auto 8. Qed.
+
+(* a channel name of exactly CHANNELLEN characters (the bound of isChannel is
+   inclusive): '<name>,x' and '<name>,-x' are decided by the CHANNEL branch of the
+   decision list -- channel-op status, the channel's explicit setting, its
+   defaultAllow -- not by the global defaults *)
+Theorem boundary_channel_follows_spec d chn x f (anti : bool) :
+  length chn = gen.T03.CHANNELLEN ->
+  hd_in gen.T03.CHANTYPES chn = true -> mem COMMA chn = false -> mem BEL chn = false -> nows chn = true ->
+  wf_cap x = true -> hd_is DASH x = false -> chan_parts x = None -> db_ok d = true ->
+  checkCapability d (if anti then chn ++ COMMA :: DASH :: x else chn ++ COMMA :: x) f =
+  Ok (spec_flags d (chn ++ COMMA :: x) (chn ++ COMMA :: DASH :: x) (Some (chn, x, DASH :: x)) f anti).
+Proof.
+  intros Hlen Hhd Hm Hb Hnw Hwx Hd Hcx Hok.
+  assert (Hne : chn <> []) by (intro E; subst; discriminate).
+  assert (Hwc : wf_cap chn = true).
+  { unfold wf_cap. rewrite Hnw. destruct chn; [congruence|reflexivity]. }
+  assert (Hch : isChannel chn = true).
+  { apply isChannel_spec. repeat split; try assumption; [lia|apply one_word_wf; exact Hwc]. }
+  assert (Hp : antipair (chn ++ COMMA :: x) (chn ++ COMMA :: DASH :: x)) by (apply ap_chan; assumption).
+  pose proof (check_is_spec_flags d _ _ f anti Hp Hok) as H.
+  unfold chan_triple in H. rewrite (chan_parts_make chn x Hm Hch (one_word_wf _ Hwx)) in H. exact H.
+Qed.
+
